@@ -40,8 +40,8 @@ Wrap(x, wr) == IF wr THEN And(<<Hidden, x>>) ELSE x
 
 \* ---- index layouts: keys that are indexed, with slopes (ties on purpose)
 SlopeOfKey == [k \in {"a.eq", "b.eq"} |-> 2] @@ [k \in {"a.pres", "a.sub", "b.pres"} |-> 4]
-              @@ [k \in {"b.ord"} |-> 5] @@ [k \in {"class.eq"} |-> 3] @@ [k \in {"uuid.eq"} |-> 1]
-Base == {"class.eq", "uuid.eq"}
+              @@ [k \in {"b.ord"} |-> 5] @@ [k \in {"class.eq"} |-> 3] @@ [k \in {"uuid.eq"} |-> 1] @@ [k \in {"class.pres"} |-> 6]
+Base == {"class.eq", "class.pres", "uuid.eq"}
 ABKeys == <<"a.eq", "a.pres", "b.eq", "b.pres">>
 \* layouts 1..16: subsets of eq/pres x a/b with sub+ord indexed; 17..32: same subsets without sub/ord
 Bit(n, i) == (n \div (2 ^ (i - 1))) % 2 = 1
@@ -52,8 +52,8 @@ Layout(n) == [k \in KeysOf(n) |-> SlopeOfKey[k]]
 \* ---- databases
 Shapes == [a : SUBSET {1, 2}, b : SUBSET {1, 2}]
 ShapeSeq == [i \in 1..16 |-> [a |-> {j \in {1, 2} : Bit(i - 1, j)}, b |-> {j \in {1, 2} : Bit(i - 1, j + 2)}]]
-EntryOf(sh) == [a |-> sh.a, b |-> sh.b, class |-> {}, uuid |-> {1}]   \* small databases: the caller's own entry
-Full16 == [i \in 1..16 |-> [a |-> ShapeSeq[i].a, b |-> ShapeSeq[i].b, class |-> {}, uuid |-> {i}]]
+EntryOf(sh) == [a |-> sh.a, b |-> sh.b, class |-> {90}, uuid |-> {1}]   \* small databases: the caller's own entry
+Full16 == [i \in 1..16 |-> [a |-> ShapeSeq[i].a, b |-> ShapeSeq[i].b, class |-> {90}, uuid |-> {i}]]
 Sid == 1  \* the caller is entry 1
 DBs == CASE DbSet = "full16" -> {Full16}
          [] DbSet = "single" -> {[i \in {1} |-> EntryOf(s)] : s \in Shapes} \cup {<<>>}
@@ -108,7 +108,9 @@ MCInv ==
      /\ EmitClass(<<rf.k, idl.k, sig, got = truth, w>>)
      /\ (sig = "none" \/ Count(5))
      \* C01: the candidate repair is exact everywhere
-     /\ (Search(rf, db, Sid, Cfg(Thres, TRUE, PresAttrs(Layout(lay)))) = truth \/ Fail("FIXWRONG"))
+     /\ LET rfx == Optimise(Anchor(rs, FALSE, Layout(lay)))
+        IN /\ (Search(rfx, db, Sid, Cfg(Thres, TRUE, PresAttrs(Layout(lay)))) = truth \/ Fail("FIXWRONG"))
+           /\ (MatchSet(rfx, db, Sid) = truth \/ Fail("FIXREWRITE"))
      \* vacuity guard: candidate-set classes reached
      /\ Count(CASE idl.k = "allids" -> 6 [] idl.k = "partial" -> 7 [] idl.k = "pthres" -> 8 [] OTHER -> 9)
 
